@@ -12,4 +12,4 @@ RULE = ('seeded histories of 1-4 sessions (optimistic / immediate / optimistic=F
 
 
 def main(tier, seed):
-    return seqcommon.main_for('C09', 'exploration', RULE, ['default', 'rels', 'delete', 'keys', 'mix'], tier, seed)
+    return seqcommon.main_for('C09', 'exploration', RULE, ['default', 'rels', 'delete', 'keys', 'mix', 'partial'], tier, seed)
